@@ -79,45 +79,57 @@ Fixpoint ndigits_fuel (fuel : nat) (v : Z) : Z :=
   end.
 Definition ndigits (v : Z) : Z := ndigits_fuel 40 v.
 
-(* DecimalType::validate_precision *)
-Definition validate_precision (oc : bool) (d : dty) (value precision : Z) : outcome unit :=
-  if d_maxp d <? precision then Err
-  else if value =? 0 then Ok tt
-  else
-    (* value.abs(): overflows for MIN *)
-    obind (unchecked oc (d_prim d) (Z.abs value)) (fun a =>
-    (* ilog10 panics for a non-positive argument (only reachable without overflow checks) *)
-    if a <=? 0 then Panic
-    else if precision <? ndigits a then Err else Ok tt).
-
-(* 10.pow(scale.unsigned_abs() as u32) where the literal 10 is an i32 (to_decimal.rs
-   IntToDecimal::bind and FloatToDecimal::bind): each multiplication is an i32 multiplication *)
+(* `base.pow(n)` in type t (unchecked: panics with overflow checks, wraps without).  Still used by
+   DecimalFormatter::new; before 40311688b also by the to-decimal binds (there on an i32 literal). *)
 Fixpoint pow_in (oc : bool) (t : ity) (base : Z) (n : nat) : outcome Z :=
   match n with
   | O => Ok 1
   | S k => obind (pow_in oc t base k) (fun r => unchecked oc t (r * base))
   end.
 
-(* IntToDecimal<S, D>: bind + cast of one value *)
+(* DecimalType::validate_precision (arrays/scalar/decimal.rs): the minimum value is handled
+   before `abs`; `abs` and `ilog10` are still the panicking std operations *)
+Definition validate_precision (oc : bool) (d : dty) (value precision : Z) : outcome unit :=
+  if d_maxp d <? precision then Err
+  else if value =? 0 then Ok tt
+  else if value =? imin (d_prim d) then
+    (if precision <? 2 ^ 32 - 1 then Err else Ok tt)            (* digits = u32::MAX *)
+  else
+    obind (unchecked oc (d_prim d) (Z.abs value)) (fun a =>
+    if a <=? 0 then Panic                                        (* ilog10 of a non-positive *)
+    else if precision <? ndigits a then Err else Ok tt).
+
+(* num_traits::checked_pow(base, exp): square-and-multiply with checked_mul.  Every intermediate
+   square is a factor of the result, so for base >= 1 it is Some(base^exp) exactly when base^exp
+   fits the type (specification of the library routine, tied by correspondence) *)
+Definition checked_pow (t : ity) (base : Z) (n : Z) : outcome Z := checked t (base ^ n).
+
+(* IntToDecimal<S, D>: bind (scale factor in the decimal primitive, bind error when it does not fit)
+   + cast of one value *)
 Definition int_to_decimal (oc : bool) (s : ity) (d : dty) (precision scale : Z) (v : Z) : outcome Z :=
-  obind (pow_in oc I32 10 (Z.abs_nat scale)) (fun amt32 =>
-  (* <D::Primitive as NumCast>::from(i32).expect(..): always in range *)
-  obind (cast_int I32 (d_prim d) amt32) (fun amt =>
+  obind (checked_pow (d_prim d) 10 (Z.abs scale)) (fun amt =>
   obind (cast_int s (d_prim d) v) (fun v' =>
   obind (if 0 <? scale then checked (d_prim d) (v' * amt) else checked_div (d_prim d) v' amt) (fun val =>
-  obind (validate_precision oc d val precision) (fun _ => Ok val))))).
+  obind (validate_precision oc d val precision) (fun _ => Ok val)))).
 
-(* DecimalToDecimal<D1, D2>: bind + cast of one value.  NOTE: no validate_precision. *)
+(* DecimalToDecimal<D1, D2>: bind + cast of one value; the rescaled value is validated against the
+   target precision.  NOTE: the source value is converted to the target primitive first. *)
 Definition decimal_to_decimal (oc : bool) (d1 d2 : dty) (scale1 precision2 scale2 : Z) (v : Z) : outcome Z :=
   let scale_diff := scale1 - scale2 in
-  obind (pow_in oc (d_prim d2) 10 (Z.abs_nat scale_diff)) (fun amt =>
+  obind (checked_pow (d_prim d2) 10 (Z.abs scale_diff)) (fun amt =>
   let rounding := if 0 <? scale_diff then Z.quot amt 2 else 0 in
   obind (cast_int (d_prim d1) (d_prim d2) v) (fun v' =>
-  if scale_diff <? 0 then checked (d_prim d2) (v' * amt)
-  else if 0 <? scale_diff then
-    let adj := if 0 <=? v' then rounding else - rounding in
-    obind (checked (d_prim d2) (v' + adj)) (fun w => checked_div (d_prim d2) w amt)
-  else Ok v')).
+  obind (if scale_diff <? 0 then checked (d_prim d2) (v' * amt)
+         else if 0 <? scale_diff then
+           let adj := if 0 <=? v' then rounding else - rounding in
+           obind (checked (d_prim d2) (v' + adj)) (fun w => checked_div (d_prim d2) w amt)
+         else Ok v') (fun r =>
+  (* `Some(v) if D2::validate_precision(v, precision).is_ok()`, anything else is the cast error *)
+  match validate_precision oc d2 r precision2 with
+  | Ok _ => Ok r
+  | Err => Err
+  | Panic => Panic
+  end))).
 
 (* ---------- floats ---------- *)
 (* IEEE binary format: mantissa bits (without the hidden bit), exponent bits *)
@@ -207,6 +219,105 @@ Definition round_half_away_me (m e : Z) : Z :=
   if 0 <=? e then m * 2 ^ e
   else let k := - e in (m + 2 ^ (k - 1)) / 2 ^ k.
 
+(* product of two finite floats, rounded to nearest even in format f *)
+Definition fmul (f : fty) (x y : fval) : fval :=
+  match x, y with
+  | FFin n1 m1 e1, FFin n2 m2 e2 => round_float f (xorb n1 n2) (m1 * m2) (e1 + e2)
+  | FNaN, _ | _, FNaN => FNaN
+  | FInf n1, FFin n2 m2 _ => if m2 =? 0 then FNaN else FInf (xorb n1 n2)
+  | FFin n1 m1 _, FInf n2 => if m1 =? 0 then FNaN else FInf (xorb n1 n2)
+  | FInf n1, FInf n2 => FInf (xorb n1 n2)
+  end.
+
+(* 10f64.powi(n), n >= 0: compiler-rt __powidf2 (r = 1; loop { if b & 1 { r *= a }; b /= 2;
+   if b == 0 { break }; a *= a }).  Exact for n <= 22. *)
+Fixpoint powi_loop (fuel : nat) (a r : fval) (b : Z) : fval :=
+  match fuel with
+  | O => r
+  | S k =>
+      let r := if Z.odd b then fmul F64 r a else r in
+      let b := b / 2 in
+      if b =? 0 then r else powi_loop k (fmul F64 a a) r b
+  end.
+Definition powi10 (n : Z) : fval := powi_loop 40 (FFin false 10 0) (FFin false 1 0) n.
+
+(* FloatToDecimal<S, D>: bind (mul_scale = NumCast::from(10f64.powi(|scale|)) into the source float
+   type) + cast of one value *)
+Definition float_to_decimal (oc : bool) (f : fty) (d : dty) (precision scale : Z) (bits : Z) : outcome Z :=
+  let mul_scale := match powi10 (Z.abs scale) with
+                   | FFin n m e => round_float f n m e           (* `as f32` / identity for f64 *)
+                   | x => x
+                   end in
+  match fmul f (decode f bits) mul_scale with
+  | FNaN => Err                                                  (* NumCast::from(NaN) = None *)
+  | FInf _ => Err
+  | FFin neg m e =>
+      let r := signed neg (round_half_away_me m e) in
+      (* NumCast::from(float) to the primitive: exclusive range (MIN-1, MAX+1) *)
+      if in_range (d_prim d) r then
+        obind (validate_precision oc d r precision) (fun _ => Ok r)
+      else Err
+  end.
+
+(* ---------- nested casts (expr/cast_expr.rs CastExpr::new_using_default_casts) ---------- *)
+(* CAST(CAST(x AS A) AS B) is planned as CAST(x AS B) exactly when the direct cast x -> B and the
+   dropped inner cast x -> A are both flagged CastFlatten::Safe *)
+Definition flatten_decision (direct_safe inner_safe : bool) : bool := direct_safe && inner_safe.
+
+(* result of the nested expression with and without flattening, integer casts *)
+Definition nested_cast (x a b : ity) (v : Z) : outcome Z := obind (cast_int x a v) (cast_int a b).
+Definition planned_nested_cast (safe : ity -> ity -> bool) (x a b : ity) (v : Z) : outcome Z :=
+  if flatten_decision (safe x b) (safe x a) then cast_int x b v else nested_cast x a b v.
+
+(* ---------- specification side ---------- *)
+(* a / b rounded to the nearest integer, halves away from zero (b > 0) *)
+Definition rha_div (a b : Z) : Z := Z.sgn a * ((2 * Z.abs a + b) / (2 * b)).
+
+(* what a cast of the decimal value v * 10^-s1 to DECIMAL(p2,s2) must give *)
+Definition rescale_spec (s1 p2 s2 : Z) (v : Z) : outcome Z :=
+  let d := if s1 <=? s2 then v * 10 ^ (s2 - s1) else rha_div v (10 ^ (s1 - s2)) in
+  if Z.abs d <? 10 ^ p2 then Ok d else Err.
+Definition int_spec (d : ity) (v : Z) : outcome Z := if in_range d v then Ok v else Err.
+Definition float_int_spec (f : fty) (d : ity) (bits : Z) : outcome Z :=
+  match decode f bits with
+  | FFin neg m e => int_spec d (signed neg (trunc_me m e))
+  | _ => Err
+  end.
+
+(* ---------- the code before the repairs a2e764fa7 / 40311688b (kept for the witness lemmas) ---------- *)
+Module Old.
+(* DecimalType::validate_precision before a2e764fa7 *)
+Definition validate_precision (oc : bool) (d : dty) (value precision : Z) : outcome unit :=
+  if d_maxp d <? precision then Err
+  else if value =? 0 then Ok tt
+  else
+    (* value.abs(): overflows for MIN *)
+    obind (unchecked oc (d_prim d) (Z.abs value)) (fun a =>
+    (* ilog10 panics for a non-positive argument (only reachable without overflow checks) *)
+    if a <=? 0 then Panic
+    else if precision <? ndigits a then Err else Ok tt).
+
+(* IntToDecimal<S, D>: bind + cast of one value *)
+Definition int_to_decimal (oc : bool) (s : ity) (d : dty) (precision scale : Z) (v : Z) : outcome Z :=
+  obind (pow_in oc I32 10 (Z.abs_nat scale)) (fun amt32 =>
+  (* <D::Primitive as NumCast>::from(i32).expect(..): always in range *)
+  obind (cast_int I32 (d_prim d) amt32) (fun amt =>
+  obind (cast_int s (d_prim d) v) (fun v' =>
+  obind (if 0 <? scale then checked (d_prim d) (v' * amt) else checked_div (d_prim d) v' amt) (fun val =>
+  obind (validate_precision oc d val precision) (fun _ => Ok val))))).
+
+(* DecimalToDecimal<D1, D2>: bind + cast of one value.  NOTE: no validate_precision. *)
+Definition decimal_to_decimal (oc : bool) (d1 d2 : dty) (scale1 precision2 scale2 : Z) (v : Z) : outcome Z :=
+  let scale_diff := scale1 - scale2 in
+  obind (pow_in oc (d_prim d2) 10 (Z.abs_nat scale_diff)) (fun amt =>
+  let rounding := if 0 <? scale_diff then Z.quot amt 2 else 0 in
+  obind (cast_int (d_prim d1) (d_prim d2) v) (fun v' =>
+  if scale_diff <? 0 then checked (d_prim d2) (v' * amt)
+  else if 0 <? scale_diff then
+    let adj := if 0 <=? v' then rounding else - rounding in
+    obind (checked (d_prim d2) (v' + adj)) (fun w => checked_div (d_prim d2) w amt)
+  else Ok v')).
+
 (* FloatToDecimal<S, D>: bind + cast of one value *)
 Definition float_to_decimal (oc : bool) (f : fty) (d : dty) (precision scale : Z) (bits : Z) : outcome Z :=
   obind (pow_in oc I32 10 (Z.abs_nat scale)) (fun amt32 =>
@@ -229,17 +340,4 @@ Definition float_to_decimal (oc : bool) (f : fty) (d : dty) (precision scale : Z
       end
   end).
 
-(* ---------- specification side ---------- *)
-(* a / b rounded to the nearest integer, halves away from zero (b > 0) *)
-Definition rha_div (a b : Z) : Z := Z.sgn a * ((2 * Z.abs a + b) / (2 * b)).
-
-(* what a cast of the decimal value v * 10^-s1 to DECIMAL(p2,s2) must give *)
-Definition rescale_spec (s1 p2 s2 : Z) (v : Z) : outcome Z :=
-  let d := if s1 <=? s2 then v * 10 ^ (s2 - s1) else rha_div v (10 ^ (s1 - s2)) in
-  if Z.abs d <? 10 ^ p2 then Ok d else Err.
-Definition int_spec (d : ity) (v : Z) : outcome Z := if in_range d v then Ok v else Err.
-Definition float_int_spec (f : fty) (d : ity) (bits : Z) : outcome Z :=
-  match decode f bits with
-  | FFin neg m e => int_spec d (signed neg (trunc_me m e))
-  | _ => Err
-  end.
+End Old.
